@@ -1,6 +1,7 @@
 (* Corr/E2ECheck.v — end-to-end cases: what the real gateway did on a generated federation/data/operation,
    compared with the model (components corr.x) and judged directly by the properties' own oracles (prop.x). *)
 From V Require Import Base.Util Gql.Ast Gql.RefExec Model.Perm Model.PermSpec Model.SkipInclude Model.PermFilter Model.Plan Model.MergeRes Model.Shape Model.FormatDoc Model.Gateway.
+From V Require Model.View.
 
 Record obs_request := {
   or_varnames : list string;                        (* keys of the "variables" object that was sent *)
@@ -305,6 +306,42 @@ Definition run_model (c : e2e_case) : res outcome_t :=
   let fs := match ec_fschema c with Some s => s | None => g_schema (ec_gen c) end in
   gateway (ec_gen c) fs W (ec_op c) (ec_vars c) (ec_perm c) (ec_max c) (ec_fuel c).
 
+(* types that an EXPLICIT (not allow-all) part of a permission tree names through field types: the recorded finding
+   KF-view-drops-types is about the allow-all branch only, so a type found here that the view lacks is not that finding *)
+Fixpoint explicit_reach (S : schema) (a : af) (t : string) {struct a} : list string :=
+  match a with AF all subs =>
+    if all then [] else
+    flat_map (fun kv =>
+      match field_ty S t (fst kv) with
+      | None => []
+      | Some fty => let ft := ty_name fty in
+          (ft :: possible_of S ft) ++ flat_map (fun pt => explicit_reach S (snd kv) pt) (ft :: possible_of S ft)
+      end) subs
+  end.
+
+(* the permission-filtered schema the code built for this request against the model of FilterSchema (Model/View.v),
+   on the composite types of the merged schema: the same types, each with the same set of fields *)
+Definition vsrc_of (S : schema) : View.vsrc :=
+  {| View.v_types := map (fun kk => let t := fst kk in
+                       {| View.vt_name := t; View.vt_abstract := kind_abstract (snd kk);
+                          View.vt_fields := map (fun f => {| View.vf_name := fst f; View.vf_type := ty_name (snd f); View.vf_args := [] |})
+                                           (match lookup t (s_fields S) with Some fs => fs | None => [] end);
+                          View.vt_possible := possible_of S t |}) (s_kinds S);
+     View.v_query := match kind_of S "Query" with Some _ => Some "Query" | None => None end;
+     View.v_mutation := match kind_of S "Mutation" with Some _ => Some "Mutation" | None => None end;
+     View.v_subscription := match kind_of S "Subscription" with Some _ => Some "Subscription" | None => None end;
+     View.v_dirargs := [] |}.
+Definition view_matches (S fs : schema) (p : operm) : bool :=
+  let view := View.filter_schema 60 (vsrc_of S) p in
+  forallb (fun kk =>
+    let t := fst kk in
+    if String.prefix "__" t || negb (kind_composite (snd kk)) then true else
+    match lookup t view, kind_of fs t with
+    | Some mf, Some _ => seteq_str mf (map fst (match lookup t (s_fields fs) with Some l => l | None => [] end))
+    | None, None => true
+    | _, _ => false
+    end) (s_kinds S).
+
 Definition root_of (c : e2e_case) : string := match o_kind (ec_op c) with OMutation => "Mutation" | _ => "Query" end.
 
 Definition check_e2e_case (c : e2e_case) : list (string * bool) :=
@@ -444,6 +481,7 @@ Definition check_e2e_case (c : e2e_case) : list (string * bool) :=
         let '(j, es) := exec_op (ec_mono c) (ec_data c) (ec_vars c) (ec_fuel c) (root_of c) (o_sel (ec_op c)) in
         json_eqb j (match obs_data c with Some d => d | None => JNull end)
       else true);
+    ("corr.view", match ec_perm c, ec_fschema c with Some p, Some f => view_matches S f p | _, _ => true end);
     ("prop.c04.valid_subqueries", forallb or_valid (obs_requests c));
     ("prop.c04.optype", forallb (fun r => if or_is_lookup r then opkind_eqb (or_keyword r) OQuery && String.eqb (or_optype r) "query"
                                           else opkind_eqb (or_keyword r) (o_kind (ec_op c)) &&
@@ -463,7 +501,11 @@ Definition check_e2e_case (c : e2e_case) : list (string * bool) :=
     ("guard.namespace_under_fault", nofault || negb (existsb (fun s => match s with
                                                    | SField _ n _ _ t (Some _) => match lookup (root_of c +++ "." +++ n) (g_locations (ec_gen c)) with None => true | Some _ => false end
                                                    | _ => false end) (flat_map flat_fields client_ss)));
-    ("guard.view_has_types", forallb (fun t => match kind_of fs t with Some _ => true | None => false end) (flat_map types_used client_ss));
+    ("guard.view_has_types",
+       let named := match ec_perm c with
+                    | Some p => explicit_reach S (match o_kind (ec_op c) with OMutation => p_mutation p | _ => p_query p end) (root_of c)
+                    | None => [] end in
+       forallb (fun t => match kind_of fs t with Some _ => true | None => mem t named end) (flat_map types_used client_ss));
     ("guard.gql_safe_strings", forallb gql_safe (flat_map sel_strings client_ss) &&
                                match m with Ok o => forallb (fun rq => forallb gql_safe (rq_ids rq)) (oc_requests o) | Err _ => true end &&
                                forallb (fun e => forallb (fun kv => match snd kv with RvLeaf (JStr x) => if String.eqb (fst kv) "id" then gql_safe x else true | _ => true end) (e_fields e)) (ec_data c));
